@@ -56,6 +56,10 @@ def generate(seed, tier, index):
     steps = []
     for _ in range(rng.randint(1, 8 if thorough else 4)):
         steps.append({"op": "burst", "n": rng.randint(1, 5), "same_iteration": rng.random() < 0.5, "between": rng.randint(1, 4)})
+        if rng.random() < 0.25:
+            # one of the TCP peers asks for the properties: the answers (several definitions) are routed to it from inside the
+            # handling of its own request, while updates from elsewhere keep being routed to the same connection
+            steps.append({"op": "request", "peer": rng.randrange(3), "then_iters": rng.randint(0, 6)})
         r = rng.random()
         if r < 0.4:
             steps.append({"op": "gap", "dt": rng.choice([0.0, 0.0001, 0.001, 0.01, 1.0])})
@@ -194,6 +198,11 @@ def execute_server(scen, sim, viol, probes, facts):
             if st["op"] == "iters":
                 sim.loop.step_iterations(st["k"])
                 continue
+            if st["op"] == "request":
+                sim.do(peers[st["peer"] % len(peers)].send, '<getProperties version="1.7"/>\n')
+                sim.loop.step_iterations(st["then_iters"])
+                probes["peer_request_answered_amid_updates"] = probes.get("peer_request_answered_amid_updates", 0) + 1
+                continue
             if st["same_iteration"]:
                 def burst(n=st["n"], st=st):
                     for i in range(n):
@@ -227,13 +236,13 @@ def execute_server(scen, sim, viol, probes, facts):
                 break
             r = routed.get(nm, [])
             want = total_routed if i in scen.get("blob_peers", []) else total_routed - probes.get("blob_update_in_burst", 0)
-            if len(r) != want:
+            if sum(1 for v_ in r if v_[0].startswith("set")) != want:
                 viol.append({"clause": "C19.isolated", "detail": f"{nm}: {len(r)} of {want} updates were routed to this connection", "facts": facts})
                 break
             _check_output(nm, p.text, r, stall == nm, viol, dict(facts, channel="tcp"))
         if scen["tty"] and not viol:
             r = routed.get("tty", [])
-            if len(r) != total_routed - probes.get("blob_update_in_burst", 0) and not tty_eof[0]:
+            if sum(1 for v_ in r if v_[0].startswith("set")) != total_routed - probes.get("blob_update_in_burst", 0) and not tty_eof[0]:
                 viol.append({"clause": "C19.isolated", "detail": f"tty: only {len(r)} of {total_routed} updates were routed to this connection", "facts": facts})
             else:
                 # (the flushed part: what is written but still sits in the stream buffer has not reached the reader)
@@ -306,6 +315,8 @@ def execute_clientconn(scen, sim, viol, probes, facts):
         if st["op"] == "iters":
             sim.loop.step_iterations(st["k"])
             continue
+        if st["op"] == "request":
+            continue  # (server world only)
         if st["same_iteration"]:
             def burst(n=st["n"]):
                 for _ in range(n):
